@@ -289,3 +289,28 @@ package shape
 //@   call out := integrate:HorizontalZoom(b, val(fld(fine, 1)), val(fld(fine, 2)), a)
 //@   assert [nested] len(out) == 1 && fld(out[0], 0) == fld(coarse, 0) && val(fld(out[0], 1)) == val(fld(coarse, 1)) && val(fld(out[0], 2)) == val(fld(coarse, 2))
 //@ end
+
+//@ -- C02 (ideal reals; part of the round-trip clause): the centre of a voxel is mapped back to the voxel's own column x
+//@ -- and vertical layer f at the same zooms.  The row y is NOT decided (it needs atan(sinh) and asinh(tan) to be
+//@ -- inverse and the 1e-10 cut to stay inside the row).
+//@ lemma C02_centre_maps_back_to_its_column_and_layer
+//@   props C02
+//@   float ideal
+//@   var gh int
+//@   var gx int
+//@   var gy int
+//@   var gv int
+//@   var gf int
+//@   split gh 0..35
+//@   split gv 0..35
+//@   quickstride 16
+//@   assume 0 <= gx && gx < pow2(gh) && 0 <= gy && gy < pow2(gh) && 0 - pow2(gv) <= gf && gf < pow2(gv)
+//@   assume abs(cut10(rowlat(gy, gh))) <= 85.051128779799995527355349622666835784912109375 && abs(cut10(rowlat(gy + 1, gh))) <= 85.051128779799995527355349622666835784912109375
+//@   call pts, err := GetPointOnExtendedSpatialId(ext(gh, gx, gy, gv, gf), 1)
+//@   assert [centre-exists] err == nil && len(pts) == 1
+//@   assume abs(pts[0].lat) <= 85.0511287798 && abs(asinh(tan(pts[0].lat * deg2rad))) <= pi
+//@   call hid := getHorizontalTileIdOnPoint(pts[0].lon, pts[0].lat, gh)
+//@   call vtile := getVerticalTileIdOnAltitude(pts[0].alt, gv)
+//@   assert [column] val(fld(hid, 1)) == gx
+//@   assert [layer] vtile == vid(gv, gf)
+//@ end
